@@ -82,6 +82,10 @@ package keystorage
 //@   ensures [tag-recomputed] result == nil ==> ks.underlying.KeysHmacHash == lastHash && in(newSlotID, ks.underlying.KeySlots)
 //@   ensures [others-kept] forall k string :: k != newSlotID ==> (in(k, ks.underlying.KeySlots) <==> old(in(k, ks.underlying.KeySlots))) &&
 //@     ks.underlying.KeySlots[k] == old(ks.underlying.KeySlots[k])
+// an add that fails adds nothing: no placeholder slot stays behind (it would count as a live slot for the
+// last-slot rule and shadow a later add)
+//@   ensures [failed-add-adds-no-slot] result != nil ==> (in(newSlotID, ks.underlying.KeySlots) <==> old(in(newSlotID, ks.underlying.KeySlots))) &&
+//@     len(ks.underlying.KeySlots) == old(len(ks.underlying.KeySlots))
 //@
 //@ func (*KeyStorage).Initialize
 //@   props C20
